@@ -52,6 +52,11 @@ CONFIGS = {
     "range-upper-case": lambda: {"valid_addr_range": {"min": "0xAB", "max": "0XFF" if False else "FF"}},
     # max below min: an empty range; whatever the loader makes of it (an empty range or a loud error), it is not the previous rule's
     "range-inverted": lambda: {"valid_addr_range": {"min": "0x4fffff", "max": "0x400000"}},
+    # malformed ranges (a missing bound, an unquoted number, not hexadecimal): loud, or loaded -- never the previous rule's range
+    "range-bad-missing-max": lambda: {"valid_addr_range": {"min": "0x10"}},
+    "range-bad-unquoted": lambda: {"valid_addr_range": {"min": 4198400, "max": 4202495}},
+    "range-bad-nonhex": lambda: {"valid_addr_range": {"min": "start", "max": "end"}},
+    "range-bad-not-mapping": lambda: {"valid_addr_range": "0x10-0xff"},
     "sections-seq": lambda: {"sections": SymSeq("sections", Name("sec_k"), 0)},
     "sections-two": lambda: {"sections": [Name("s1"), Name("s2")]},
     "all": lambda: {"style": "att", "mnemonics-full-match": False, "operands-full-match": True,
@@ -90,7 +95,7 @@ def load_config():
         for i, p in enumerate(run.paths):
             base = f"load_config:{cid}:p{i}"
             if p.kind != "ret":
-                loud_ok = cid == "range-inverted" and isinstance(p.value, ValueError)
+                loud_ok = (cid == "range-inverted" and isinstance(p.value, ValueError)) or cid.startswith("range-bad")
                 obs.append(simple_ob(base + ":EXC", JC + ".load_config", "EXC", "no exception for a valid config (an inverted range may be "
                                      "rejected with ValueError)", loud_ok, ["C14", "C01", "C15", "C18"], detail=repr(p.value), witness=cid))
                 continue
@@ -107,7 +112,9 @@ def load_config():
                 if not same:
                     bad.append((k, g, v))
             vr = gi.get("valid_addr_range")
-            if "valid_addr_range" in conf:
+            if cid.startswith("range-bad"):
+                okr = vr is None or isinstance(vr, J.gd.ValidAddrRange)       # accepted somehow: this rule's, not a stale one
+            elif "valid_addr_range" in conf:
                 okr = isinstance(vr, J.gd.ValidAddrRange) and vr.min.hex == int(conf["valid_addr_range"]["min"].replace("0x", ""), 16) \
                     and vr.max.hex == int(conf["valid_addr_range"]["max"].replace("0x", ""), 16)
             else:
